@@ -302,7 +302,7 @@ def judge_xref(t, vd, cid, ttags, src):
             feat = "other"
             for k, tt in enumerate(ttags):
                 if name == f"t{k}":
-                    feat = tt
+                    feat = "static-separator-action" if tt in ("separator-static", "in-menu-separator") else tt
             t.violation(f"header-reference-to-undeclared-object:{feat}", dict(case, name=name, declared=names))
     for (_k, n, _c, el) in named:
         for e in el.findall("property"):
